@@ -870,3 +870,146 @@ func freeVarValue(ctx *Ctx, fv *ssa.FreeVar) *Term {
 	}
 	return ctx.Term(fv)
 }
+
+// untaintAgreement (C07.R3 / C05.R7 / C15.R4): the untaint write recognises the escalator taint
+// by the same predicate as the classifier (GetToBeRemovedTaint: Key == const and nothing else),
+// so a node the controller counts as untainted really had its taint removed.
+func (ck *Check) untaintAgreement(rule string) {
+	a := ck.A
+	const keyLit = `"atlassian.com/escalator"`
+	for _, fn := range []*ssa.Function{a.DelTaint, a.GetTaint, a.AddTaint} {
+		ctx := ck.P.NewCtx(fn)
+		var loop *Loop
+		for _, l := range loopsOf(fn) {
+			if l.IdxPhi != nil && strings.HasSuffix(ctx.Term(l.Over).String(), "Spec.Taints") || (l.IdxPhi != nil && strings.Contains(ctx.Term(l.Over).String(), "Spec.Taints@")) {
+				loop = l
+			}
+		}
+		key := funcID(fn) + "/taint-match"
+		if loop == nil {
+			ck.fail(rule, key, ck.P.position(fn.Pos()), funcID(fn), "the function searches Spec.Taints for the escalator key", "no such loop", "")
+			continue
+		}
+		// every condition on the loop element, on any path leaving the loop early, is exactly Key == const
+		okv := true
+		var why []string
+		found := false
+		for _, e := range loop.Exits {
+			if e[0] == loop.Header {
+				continue
+			}
+			pc := And(ctx.BlockPC(e[0]), ctx.edgeCond(e[0], e[1]))
+			for _, at := range pc.Atoms() {
+				if !strings.Contains(at.String(), "elem(") && !strings.Contains(at.String(), "&taint") {
+					continue
+				}
+				if at.Kind == "cmp" && at.Name == "<" && strings.Contains(at.String(), "rangeindex") {
+					continue
+				}
+				isKey := at.Kind == "cmp" && at.Name == "==" && hasConstStr(at, keyLit) && strings.Contains(at.String(), ".Key")
+				if isKey {
+					if imp, _, _ := Entails(pc, Atom(at)); imp {
+						found = true
+						continue
+					}
+				}
+				okv = false
+				why = append(why, "the match depends on "+at.String())
+			}
+		}
+		if !found {
+			okv = false
+			why = append(why, "no exit of the search under Key == "+keyLit)
+		}
+		ck.cond(okv, rule, key, ck.P.position(fn.Pos()), funcID(fn), "the escalator taint is recognised by Key == "+keyLit+" and nothing else (writer, remover and classifier agree)", "", strings.Join(why, "; "))
+	}
+}
+
+// nodeListImmutability: no function reachable from the scan body writes into a node list it
+// received (elements of the classifier's lists are shared between capacity calculation and
+// the actions), neither by element stores nor by appending into a re-slice of it.
+func (ck *Check) nodeListImmutability(rule string) {
+	a := ck.A
+	reach := ck.P.reachCut([]*ssa.Function{a.Scan}, nil)
+	var fns []*ssa.Function
+	for fn := range reach {
+		fns = append(fns, fn)
+	}
+	isNodeList := func(t types.Type) bool {
+		sl, ok := t.Underlying().(*types.Slice)
+		if !ok {
+			return false
+		}
+		pt, ok := sl.Elem().(*types.Pointer)
+		return ok && (strings.HasSuffix(typeName(pt.Elem()), "v1.Node") || strings.HasSuffix(typeName(pt.Elem()), "v1.Pod"))
+	}
+	// sharedRoot: the slice value derives (through re-slicing / φ) from a parameter, a scaleOpts field, a lister result or the classifier
+	var sharedRoot func(v ssa.Value, seen map[ssa.Value]bool) string
+	sharedRoot = func(v ssa.Value, seen map[ssa.Value]bool) string {
+		if seen[v] {
+			return ""
+		}
+		seen[v] = true
+		switch x := v.(type) {
+		case *ssa.Parameter:
+			if isNodeList(x.Type()) {
+				return "parameter " + x.Name()
+			}
+		case *ssa.Slice:
+			return sharedRoot(x.X, seen)
+		case *ssa.Phi:
+			for _, e := range x.Edges {
+				if r := sharedRoot(e, seen); r != "" {
+					return r
+				}
+			}
+		case *ssa.UnOp:
+			if fa, ok := x.X.(*ssa.FieldAddr); ok && isNodeList(x.Type()) {
+				if st := derefStruct(fa.X.Type()); st != nil && a.TScaleOpts != nil && types.Identical(st, a.TScaleOpts.Underlying()) {
+					return "scaleOpts." + fieldOfAddr(fa).Name()
+				}
+			}
+		case *ssa.Extract:
+			if c, ok := x.Tuple.(*ssa.Call); ok && isNodeList(x.Type()) {
+				if c.Common().IsInvoke() || (c.Common().StaticCallee() != nil && ck.P.inRepo(c.Common().StaticCallee())) {
+					return "result of " + calleeName(c)
+				}
+			}
+		}
+		return ""
+	}
+	n, bad := 0, 0
+	for _, fn := range fns {
+		for _, b := range fn.Blocks {
+			for _, in := range b.Instrs {
+				switch x := in.(type) {
+				case *ssa.Store:
+					if ia, ok := x.Addr.(*ssa.IndexAddr); ok && isNodeList(ia.X.Type()) {
+						n++
+						if r := sharedRoot(ia.X, map[ssa.Value]bool{}); r != "" {
+							bad++
+							ck.fail(rule, fmt.Sprintf("%s/%s", funcID(fn), ck.P.siteKeyInstr(x)), ck.P.instrPos(x), funcID(fn), "node / pod lists received from the scan are not modified in place", "element store into "+r, "a list shared with later steps of the scan is reordered or overwritten")
+						}
+					}
+				case *ssa.Call:
+					if ap, ok := isBuiltinCall(x, "append"); ok && isNodeList(ap.Type()) {
+						n++
+						base := ap.Common().Args[0]
+						_, isSlice := base.(*ssa.Slice)
+						_, isPhi := base.(*ssa.Phi)
+						if isSlice || isPhi {
+							if r := sharedRoot(base, map[ssa.Value]bool{}); r != "" {
+								bad++
+								ck.fail(rule, ck.P.siteKey(x), ck.P.instrPos(x), funcID(fn), "node / pod lists received from the scan are not modified in place", "append into a re-slice of "+r, "filtering in place compacts the caller's backing array: elements of a list shared with later steps disappear or are duplicated")
+							}
+						}
+					}
+				}
+			}
+		}
+	}
+	ck.Stats[rule+" list writes examined"] = n
+	if bad == 0 {
+		ck.ok(rule, "scan/list-immutability", "", funcID(a.Scan), "no function reachable from the scan body writes into a node / pod list it received", fmt.Sprintf("%d element stores / appends examined in %d functions", n, len(fns)))
+	}
+}
